@@ -61,6 +61,24 @@ def run(prop, replay=None):
         cov = extract_cases(rs.stdout)
         v.add_tlc(rs, "GEN transition coverage: %d histories, one per transition of the sequential state graph" % len(cov))
         cases = cov + cases
+    if prop == "C32":
+        # the monolithic Coordinator::migrate_pipeline (used by failover, rebalance and drain) = plan + HTTP + commit in one call:
+        # directed histories over source reachable / unreachable / already unhealthy and target reachable / unreachable
+        mono = []
+        for src in ("mock", "dead"):
+            for unhealthy in (False, True):
+                for tgt in ("mock", "dead"):
+                    for pipe in ("p1", "p2"):
+                        h = [{"a": "register", "w": "w1", "addr": src}, {"a": "register", "w": "w2", "addr": tgt},
+                             {"a": "plan_deploy", "g": "g1", "pin": {"p1": "w1", "p2": "w1"}, "id": 0},
+                             {"a": "commit_deploy", "id": 0, "ok": {"p1": True, "p2": True}}]
+                        if unhealthy:
+                            h += [{"a": "age", "w": "w1"}, {"a": "sweep"}]
+                        h += [{"a": "migrate_mono", "p": pipe, "g": "g1", "tgt": "w2"},
+                              {"a": "plan_teardown", "g": "g1", "id": 2}, {"a": "commit_teardown", "id": 2}]
+                        mono.append({"hist": h})
+        v.notes.append("%d directed histories through the monolithic migrate_pipeline (loopback mock worker)" % len(mono))
+        cases = mono + cases
     if prop == "C33":
         rh = tlc_cfg("_hcov.cfg", base % (0, 0) + "INIT GInit\nNEXT GHealthNext\nVIEW StateView\nINVARIANT EmitAll\nCHECK_DEADLOCK FALSE\n", "CoordGen", "hcov_" + prop, workers=4, timeout=1800)
         if rh.error or rh.violated:
